@@ -188,30 +188,56 @@ def _chain_call(prog, fn, t, depth, seen):
     return out
 
 
+def _checkpoint_read_propagates(raw, entry, depth=0):
+    """{found: n, steps: [(step name, propagates all the way to `entry`'s Err return?, where)]} for the checkpoint read reachable from entry"""
+    out = {"found": 0, "steps": []}
+    if depth > 3:
+        return out
+    for b, t in entry.calls():
+        step = None
+        if is_callee(t, r"checkpoint::CheckpointReader(::<.*>)?::(open|load|validate)$"):
+            step = callee(t).rsplit("::", 1)[-1]
+            okp = lib2.error_propagates(entry, t)
+        elif is_callee(t, r"ObjectStore>::get$") and len(t["args"]) > 1:
+            k = src_of_operand(entry, t["args"][1], through_calls=TRANSPARENT + (r"Deref>::deref$", r"String::as_str$"))
+            if "checkpoint" in k.fields or (k.kind == "path" and "checkpoint" in (k.root or "")) or \
+                    (k.kind == "path" and k.fields[-1:] == ("key",) and "CheckpointInfo" in str(entry.locals[k.local] if k.local is not None else "")):
+                step = "get"
+                okp = lib2.awaited_error_propagates(entry, b)
+        if step:
+            out["found"] += 1
+            out["steps"].append((step, okp, entry.where(t["ln"])))
+            continue
+        # a helper of recovery.rs on the way: its own steps must propagate inside it, and this call must propagate its result
+        c = raw.local_callee(entry, t)
+        if c is not None and c.kind in ("fn", "method") and c.file == entry.file and c.id != entry.id and "RecoveryManager" in c.id:
+            body = raw.fns.get(c.id + "::{closure#0}") if raw.fns.get(c.id + "::{closure#0}") is not None and raw.fns[c.id + "::{closure#0}"].kind == "coroutine" else c
+            inner = _checkpoint_read_propagates(raw, body, depth + 1)
+            if inner["found"]:
+                up = lib2.awaited_error_propagates(entry, b) if body is not c else lib2.error_propagates(entry, t)
+                out["found"] += inner["found"]
+                for step, okp, where in inner["steps"]:
+                    out["steps"].append((step, okp and up, where if not okp else entry.where(t["ln"])))
+    return out
+
+
 def _r112(ck, prog, cfg):
     n = 0
     for name in ("recover::{closure#0}", "recover_with_progress::{closure#0}"):
         f = prog.one(RM + name)
         short = name.split("::")[0]
         # a checkpoint the manifest names is read or recovery fails: the segments it covers are no longer listed, so treating a
-        # failed read as "no checkpoint" silently drops every update only the checkpoint holds
-        steps = [(b, t) for b, t in f.calls() if is_callee(t, r"checkpoint::CheckpointReader(::<.*>)?::(open|load|validate)$")]
-        gets = []
-        for b, t in f.calls():
-            if is_callee(t, r"ObjectStore>::get$") and len(t["args"]) > 1:
-                k = src_of_operand(f, t["args"][1], through_calls=TRANSPARENT + (r"Deref>::deref$", r"String::as_str$"))
-                if "checkpoint" in k.fields or (k.kind == "path" and "checkpoint" in (k.root or "")):
-                    gets.append((b, t))
-        ck.check(len(steps) >= 2 and len(gets) >= 1, "R11.2", "%s:checkpoint-read-found%s" % (short, _tag(cfg)),
-                 "the read of the manifest's checkpoint (get + CheckpointReader::open + load) was not found", f.where())
-        for b, t in gets:
-            ck.check(lib2.awaited_error_propagates(f, b), "R11.2", "%s:checkpoint-get-error-propagates%s" % (short, _tag(cfg)),
-                     "a failed read of the checkpoint object does not fail recovery: recovery continues as if there were no checkpoint and "
-                     "returns Ok without the updates only the checkpoint holds", f.where(t["ln"]), detail="get(checkpoint.key).await?")
-        for b, t in steps:
-            ck.check(lib2.error_propagates(f, t), "R11.2", "%s:checkpoint-%s-error-propagates%s" % (short, callee(t).rsplit("::", 1)[-1], _tag(cfg)),
-                     "a checkpoint that cannot be opened/decoded does not fail recovery (it is skipped): the updates it alone holds are "
-                     "dropped silently", f.where(t["ln"]), detail="CheckpointReader::open/load error -> Err return")
+        # failed read as "no checkpoint" silently drops every update only the checkpoint holds.  Decided on the un-inlined program:
+        # each read step propagates its error inside the function that holds it, and every call on the way up to this entry does too.
+        raw = getattr(prog, "base", prog)
+        entry = raw.one(RM + name)
+        res = _checkpoint_read_propagates(raw, entry)
+        ck.check(res["found"] >= 3, "R11.2", "%s:checkpoint-read-found%s" % (short, _tag(cfg)),
+                 "the read of the manifest's checkpoint (get + CheckpointReader::open/validate/load) was not found from %s" % short, f.where())
+        for step, okp, where in res["steps"]:
+            ck.check(okp, "R11.2", "%s:checkpoint-%s-error-propagates%s" % (short, step, _tag(cfg)),
+                     "a checkpoint that cannot be read (%s fails) does not fail recovery: recovery continues as if there were no checkpoint "
+                     "and returns Ok without the updates only the checkpoint holds" % step, where, detail="error of %s -> Err return of recovery" % step)
         loads = [(b, t) for b, t in f.calls() if is_callee(t, r"RecoveryManager::<S>::load_segment$")]
         ck.check(len(loads) == 1, "R11.2", "%s:load-call%s" % (short, _tag(cfg)), "load_segment call not found exactly once", f.where())
         for lb, lt in loads:
